@@ -49,7 +49,7 @@ def gen_cases(ctx):
         for v in ("tdvp1", "tdvp2"):
             cases.append({"kind": "step", "variant": v, "par": par, "seed": rng.randrange(10 ** 9),
                           "steps": 2, "fullrank": True, "pregauge": None})
-    for _ in range(ctx.n(8, 150)):
+    for _ in range(ctx.n(40, 250)):
         for v in ("tdvp1", "tdvp2"):
             kind = rng.choice([None, None, "spider", "chain", "twig", "twig", "bush"])
             n = rng.choice([3, 4, 5, 5, 6, 7]) if kind else rng.choice([2, 3, 4, 5, 6])
@@ -59,7 +59,7 @@ def gen_cases(ctx):
                           "seed": rng.randrange(10 ** 9), "steps": rng.choice([2, 3]),
                           "fullrank": rng.random() < 0.5,
                           "pregauge": rng.choice([None, None, "KEEP", "REDUCED"])})
-    for _ in range(ctx.n(6, 60)):
+    for _ in range(ctx.n(15, 80)):
         for v in ("tdvp1", "tdvp2"):
             cases.append({"kind": "saturated", "variant": v, "seed": rng.randrange(10 ** 9),
                           "d": rng.choice([2, 3]), "rootfirst": rng.random() < 0.5})
